@@ -1160,6 +1160,10 @@ class InterpMixin:
         if isinstance(v, (list, tuple)):
             return list(v)
         if isinstance(v, (set, frozenset)):
+            if sum(1 for x in v if isinstance(x, str)) >= 2 and not getattr(self, "_order_insensitive", False):
+                # CPython randomises str hashes per process: the iteration order of this set differs between interpreter runs
+                self.oblige("order-independence(iteration over a set of strings: the order depends on the per-process hash seed)", z3.BoolVal(False),
+                            elements=str(sorted(v))[:160])
             try:
                 return sorted(v)
             except TypeError:
